@@ -40,18 +40,49 @@ def arrays_equal(a, b, name):
         x, y = Sym.of(x), Sym.of(y)
         if x.same(y):
             continue
+        ux = any(n.startswith("undef!") for n in Z._closure_vars(x))
+        uy = any(n.startswith("undef!") for n in Z._closure_vars(y))
+        if ux and uy:
+            continue        # undefined both times (x/0 at the T = 0 row of an unmasked intermediate): nothing to compare
         if Z.prove_equal(x, y, name=name, timeout_ms=10000)[0] != "unsat":
             return False
     return True
 
 
 # ---------------------------------------------------------------------------------------------------------------------
+def flat(x):
+    """1-D object array of the scalars of a result (arrays, or lists / tuples of arrays of different shapes)."""
+    if isinstance(x, (list, tuple)):
+        parts = [flat(y) for y in x]
+        return numpy.concatenate(parts) if parts else numpy.empty(0, dtype=object)
+    a = numpy.asarray(x, dtype=object)
+    if a.dtype == object and a.size and isinstance(a.ravel()[0], (numpy.ndarray, list, tuple)):
+        return flat(list(a.ravel()))
+    return a.ravel().copy()
+
+
+def cached_names(cls):
+    """Every property / LazyProperty the class (and its bases) defines: the results a caller -- or another property -- may read."""
+    from lazy_property import LazyProperty
+    out = []
+    for klass in reversed(cls.__mro__):
+        for n, v in vars(klass).items():
+            if isinstance(v, (property, LazyProperty)) and not n.startswith("_") and n not in out:
+                out.append(n)
+    return out
+
+
+def h1_orders(names, rng):
+    r = random.Random(14)
+    shuffled = list(names)
+    r.shuffle(shuffled)
+    rot = names[len(names) // 2:] + names[:len(names) // 2]
+    return [list(names), list(reversed(names)), shuffled, rot]
+
+
 def h1_phonon_objects(chk, rng):
     import cij.core.phonon_contribution.nonshear as ns
     chk.encode(ns.LongitudinalElasticModulusPhononContribution, ns.OffDiagonalElasticModulusPhononContribution)
-    names = ["zero_point_contribution", "thermal_contribution", "value_isothermal", "value_adiabatic", "isothermal_to_adiabatic"]
-    orders = [names, list(reversed(names)), ["value_adiabatic", "thermal_contribution", "value_isothermal", "zero_point_contribution",
-                                             "isothermal_to_adiabatic"]]
     for cls_name in ("LongitudinalElasticModulusPhononContribution", "OffDiagonalElasticModulusPhononContribution"):
         ctx = new_context()
         PC.declare_constants(ctx)
@@ -62,14 +93,25 @@ def h1_phonon_objects(chk, rng):
         observed = []
         fails = []
         t0 = time.time()
+        names = []
 
         def scenario(order):
             with patched((ns, {"numpy": NumpyProxy()})):
                 o = cls(d, (ei, ei) if "Longitudinal" in cls_name else (ei, ej))
-                first = {n: numpy.array(getattr(o, n), dtype=object).copy() for n in order}
-                second = {n: numpy.array(getattr(o, n), dtype=object).copy() for n in reversed(order)}
+                first = {n: flat(getattr(o, n)) for n in order}
+                second = {n: flat(getattr(o, n)) for n in reversed(order)}
             return first, second
         try:
+            # the results of the object: all its (lazy) properties that evaluate on the duck calculator, the cached intermediates included
+            for n in cached_names(cls):
+                try:
+                    X.run_single_path(lambda: scenario([n]), name="C14:H1:probe")
+                    names.append(n)
+                except SymError:
+                    raise
+                except Exception:
+                    pass
+            orders = h1_orders(names, rng)
             for order in orders:
                 first, second = X.run_single_path(lambda: scenario(order), name="C14:H1")
                 observed.append(first)
@@ -85,30 +127,30 @@ def h1_phonon_objects(chk, rng):
             continue
         except Exception as e:
             fails.append("raises %s: %s" % (type(e).__name__, e))
-        chk.obligation("H1 %s: %d results read in 3 orders and twice each are the same arrays" % (cls_name, len(names)),
+        chk.obligation("H1 %s: %d results (%s) read in %d orders and twice each are the same arrays" % (cls_name, len(names), ", ".join(names), 4),
                        "unsat" if not fails else "sat", seconds=round(time.time() - t0, 2), kind="history(access order)", detail=sorted(set(fails))[:3])
+        chk.witness("H1 %s: cached intermediates are among the results read" % cls_name, "sat" if len(names) >= 6 else "unsat")
         if fails:
-            replay_h1(chk, ns, cls_name, rng, fails[0])
+            replay_h1(chk, ns, cls_name, rng, fails[0], names)
 
 
-def replay_h1(chk, ns, cls_name, rng, what):
+def replay_h1(chk, ns, cls_name, rng, what, names):
     d = PL.float_duck(2, 3, 2, 2, rng)
     e = (numpy.array([0.3, 0.32]), numpy.array([0.3, 0.32])) if "Longitudinal" in cls_name else (numpy.array([0.3, 0.32]), numpy.array([0.36, 0.33]))
     cls = getattr(ns, cls_name)
-    names = ["zero_point_contribution", "thermal_contribution", "value_isothermal", "value_adiabatic"]
     try:
         with numpy.errstate(all="ignore"):
-            a = cls(d, e)
-            ref = {n: numpy.array(getattr(cls(d, e), n), dtype=float) for n in names}        # a fresh object per quantity
-            for order in (names, list(reversed(names))):
+            ref = {n: flat(getattr(cls(d, e), n)).astype(float) for n in names}        # a fresh object per quantity
+            for order in h1_orders(names, rng):
                 o = cls(d, e)
-                got1 = {n: numpy.array(getattr(o, n), dtype=float) for n in order}
-                got2 = {n: numpy.array(getattr(o, n), dtype=float) for n in order}
+                got1 = {n: flat(getattr(o, n)).astype(float) for n in order}
+                got2 = {n: flat(getattr(o, n)).astype(float) for n in reversed(order)}
                 for n in names:
                     for g in (got1[n], got2[n]):
-                        if numpy.nanmax(numpy.abs(g[1:] - ref[n][1:])) > 1e-12 * numpy.nanmax(numpy.abs(ref[n][1:])) + 1e-300:
+                        fin = numpy.isfinite(ref[n]) & numpy.isfinite(g)
+                        if (numpy.isfinite(ref[n]) != numpy.isfinite(g)).any() or (fin.any() and numpy.abs(g[fin] - ref[n][fin]).max() > 1e-12 * numpy.abs(ref[n][fin]).max() + 1e-300):
                             chk.violation("history:phonon-object:%s" % n, "%s.%s differs from its value on a fresh object after the results were read "
-                                          "in the order %s" % (cls_name, n, order), dict(order=order))
+                                          "in the order %s (and back)" % (cls_name, n, order), dict(order=order))
                             return
     except Exception as ex:
         chk.violation("history:phonon-object:raises", "%s raises %s: %s" % (cls_name, type(ex).__name__, ex), {})
@@ -232,9 +274,14 @@ def h3_h4_interfaces(chk, rng, tier):
                 r2 = read_all(["iso", "adi"], which=calc_b)
                 # H4: the writer twice and with the keyword list in another order
                 writes = []
-                for cfg in ({"pressure_base": ["cij", "cij_t", "bm_VRH", "v"], "volume_base": ["cij_t", "cij", "G_R", "p"]},
-                            {"pressure_base": ["v", "bm_VRH", "cij_t", "cij"], "volume_base": ["p", "G_R", "cij", "cij_t"]},
-                            {"pressure_base": ["cij", "cij_t", "bm_VRH", "v"], "volume_base": ["cij_t", "cij", "G_R", "p"]}):
+                # one configuration object for all calls (as in a real Calculator), with entries in dict form carrying file-name and
+                # unit overrides; the second call sees the same entries listed in reverse
+                ov1 = {"keyword": "bm_VRH", "fname": "my_bm_{base}.txt", "unit": "rydberg / bohr^3"}
+                ov2 = {"keyword": "cij_t", "fname": "my_c{ij}t_{base}.txt"}
+                ov3 = {"keyword": "p", "fname": "my_p_{base}.txt"}
+                cfg1 = {"pressure_base": ["cij", ov2, ov1, "bm_VRH", "v"], "volume_base": ["cij_t", "cij", "G_R", ov3]}
+                cfg2 = {"pressure_base": list(reversed(cfg1["pressure_base"])), "volume_base": list(reversed(cfg1["volume_base"]))}
+                for cfg in (cfg1, cfg2, cfg1):
                     del sink[:]
                     calc.__dict__["config"] = {"output": cfg}
                     calc.write_output()
@@ -276,8 +323,62 @@ def h3_h4_interfaces(chk, rng, tier):
     chk.obligation("H4 write_output three times (once with the keyword lists reversed): the same table reaches the table writer for every file "
                    "[%d files]" % (len(writes[0]) if writes else 0), "unsat" if (writes is not None and not wf) else "sat",
                    kind="history(repeated writes)", detail=sorted(set(wf))[:3])
-    if fails or wf:
+    if wf and not fails:
+        replay_h4(chk, cc, wf[0])
+    elif fails or wf:
         C15.replay(chk, cc, rw, rng, (fails or wf)[0])
+
+
+def replay_h4(chk, cc, what):
+    """Stage R for the repeated-write history: the real Calculator on a shipped example whose output section has entries with file-name
+    and unit overrides; write_output three times into fresh directories, the files of each call compared byte for byte."""
+    import shutil
+    import tempfile
+    import yaml
+    src = os.path.join(os.environ.get("CIJ_REPO", "/repo"), "examples", "akimotoite")
+    tmp = tempfile.mkdtemp(prefix="c14w_")
+    cwd = os.getcwd()
+    import logging
+    try:
+        for f in ("input01", "input02"):
+            shutil.copy(os.path.join(src, f), tmp)
+        cfg = yaml.safe_load(open(os.path.join(src, "settings.yaml")))
+        cfg["qha"]["settings"].update(NT=8, NTV=41)
+        cfg["output"] = {"pressure_base": ["cij", {"keyword": "cij_t", "fname": "my_c{ij}t_{base}.txt"},
+                                           {"keyword": "bm_VRH", "fname": "my_bm_{base}.txt", "unit": "kbar"}, "bm_VRH", "v"],
+                         "volume_base": ["G_R", {"keyword": "p", "fname": "my_p_{base}.txt"}]}
+        with open(os.path.join(tmp, "settings.yaml"), "w") as fp:
+            yaml.safe_dump(cfg, fp)
+        logging.disable(logging.CRITICAL)
+        with warnings.catch_warnings():
+            warnings.simplefilter("ignore")
+            calc = cc.Calculator(os.path.join(tmp, "settings.yaml"))
+            snaps = []
+            for i in range(3):
+                d = os.path.join(tmp, "out%d" % i)
+                os.makedirs(d)
+                os.chdir(d)
+                calc.write_output()
+                os.chdir(cwd)
+                snaps.append({f: open(os.path.join(d, f), "rb").read() for f in sorted(os.listdir(d))})
+        for i in (1, 2):
+            if set(snaps[i]) != set(snaps[0]):
+                chk.violation("history:write_output:file-set", "write_output call #%d on the same Calculator writes the files %s, the first call wrote %s "
+                              "(output entries with fname / unit overrides)" % (i + 1, sorted(set(snaps[i]) ^ set(snaps[0]))[:4], len(snaps[0])), dict(output=cfg["output"]))
+                return
+            diff = [f for f in snaps[0] if snaps[0][f] != snaps[i][f]]
+            if diff:
+                chk.violation("history:write_output:bytes", "write_output call #%d rewrites %s with other bytes than the first call" % (i + 1, diff[:3]),
+                              dict(output=cfg["output"]))
+                return
+    except Exception as e:
+        chk.violation("history:write_output:raises", "repeated write_output raises %s: %s" % (type(e).__name__, str(e)[:120]), {})
+        return
+    finally:
+        logging.disable(logging.NOTSET)
+        os.chdir(cwd)
+        shutil.rmtree(tmp, ignore_errors=True)
+    chk.harness_error("C14 H4: '%s' did not reproduce through the real Calculator" % what)
 
 
 # ---------------------------------------------------------------------------------------------------------------------
